@@ -1,14 +1,16 @@
 """Differential: real callVariant vs the Lean definition `Spec.callVariant`
-(C01 missing / C02 extra / C03 header witnesses), per generated input.
+(C01 missing / C02 extra / C03 header witnesses / C05 paired runs), per generated input.
 """
 from __future__ import annotations
+import json
 import random
+import re
 import traceback
 from typing import Dict, List, Optional, Set, Tuple
 
 from . import common, gen_ref, pipe
 
-ENZ_OK = ['trypsin']
+CLS = {'SNV': 'S', 'RNAEditingSite': 'S', 'INDEL': 'I'}
 
 
 def tx_inputs(case: gen_ref.Case, anno, genome):
@@ -40,34 +42,82 @@ def tx_inputs(case: gen_ref.Case, anno, genome):
     return out
 
 
-CLS = {'SNV': 'S', 'RNAEditingSite': 'S', 'INDEL': 'I'}
-
-
-def spec_line(tx: dict, kw: dict, canon: Set[str], idmap: Dict[str, int]) -> str:
-    vs = []
-    for (s, e, r, a, t, vid) in tx['vars']:
-        if t not in CLS:
-            return ''
-        vs.append(f'{s}:{e}:{r}:{a}:{CLS[t]}:{idmap.setdefault(vid, len(idmap))}')
-    orf = tx['orf'] or (0, 0)
+def resolve_exc(kw: dict) -> Optional[str]:
     exc = kw.get('cleavage_exception')
     if exc == 'auto':
         exc = 'trypsin_exception' if kw['cleavage_rule'] == 'trypsin' else None
-    return '\t'.join([
-        'S', 'cv', tx['seq'], '1' if tx['coding'] else '0', str(orf[0]), str(orf[1]),
-        '1' if tx['start_nf'] else '0', '1' if tx['end_nf'] else '0',
-        ','.join(str(x) for x in tx['sec']), ';'.join(vs),
-        kw['cleavage_rule'], exc or '-', str(kw['miscleavage']), str(pipe.mw_int(kw['min_mw'])),
-        str(kw['min_length']), str(kw['max_length']),
+    return exc
+
+
+def tx_fields(tx: dict) -> List[str]:
+    orf = tx['orf'] or (0, 0)
+    return [tx['seq'], '1' if tx['coding'] else '0', str(orf[0]), str(orf[1]),
+            '1' if tx['start_nf'] else '0', '1' if tx['end_nf'] else '0',
+            ','.join(str(x) for x in tx['sec'])]
+
+
+def var_field(tx: dict, idmap: Dict[str, int]) -> Optional[str]:
+    vs = []
+    for (s, e, r, a, t, vid) in tx['vars']:
+        if t not in CLS:
+            return None
+        vs.append(f'{s}:{e}:{r}:{a}:{CLS[t]}:{idmap.setdefault(vid, len(idmap))}')
+    return ';'.join(vs)
+
+
+def cleave_fields(kw: dict, exc: Optional[str]) -> List[str]:
+    return [kw['cleavage_rule'], exc or '-', str(kw['miscleavage']), str(pipe.mw_int(kw['min_mw'])),
+            str(kw['min_length']), str(kw['max_length'])]
+
+
+def spec_line(tx: dict, kw: dict, canon: Set[str], idmap: Dict[str, int],
+              exc: Optional[str]) -> Optional[str]:
+    vf = var_field(tx, idmap)
+    if vf is None:
+        return None
+    return '\t'.join(['S', 'cv'] + tx_fields(tx) + [vf] + cleave_fields(kw, exc) + [
         '1' if kw['selenocysteine_termination'] else '0', '1' if kw['w2f_reassignment'] else '0',
         ','.join(sorted(canon))])
 
 
-def default_kw(rng: random.Random, vary: bool, opts_exc=None) -> dict:
-    kw = dict(cleavage_rule='trypsin', cleavage_exception=opts_exc, miscleavage=2, min_mw=500.,
+def set_line(tx: dict, kw: dict, idmap: Dict[str, int], exc: Optional[str]) -> Optional[str]:
+    vf = var_field(tx, idmap)
+    if vf is None:
+        return None
+    return '\t'.join(['S', 'set'] + tx_fields(tx) + [vf] + cleave_fields(kw, exc))
+
+
+def parse_entry(entry: str, tx_id: str, idmap: Dict[str, int]):
+    """(ids, sect, w2f, problem) of a header entry `TX|id|…|[SECT-n]|[W2F-n]|[ORFk]|index`"""
+    parts = entry.split('|')
+    if parts[0] != tx_id:
+        return None, False, False, f'backbone {parts[0]} is not the transcript {tx_id}'
+    if len(parts) < 2 or not parts[-1].isdigit():
+        return None, False, False, 'no trailing index'
+    ids, sect, w2f = [], False, False
+    for p in parts[1:-1]:
+        if p.startswith('SECT-'):
+            sect = True
+        elif p.startswith('W2F-'):
+            w2f = True
+        elif re.match(r'^ORF\d+$', p):
+            pass
+        elif p in idmap:
+            ids.append(idmap[p])
+        else:
+            return None, sect, w2f, f'variant id {p} does not occur in the input GVF for {tx_id}'
+    return ids, sect, w2f, None
+
+
+def default_kw(rng: random.Random, vary: bool, exception=None, enzymes=None) -> dict:
+    kw = dict(cleavage_rule='trypsin', cleavage_exception=exception, miscleavage=2, min_mw=500.,
               min_length=7, max_length=25, selenocysteine_termination=False,
               w2f_reassignment=False)
     if vary:
+        if enzymes:
+            kw['cleavage_rule'] = rng.choice(enzymes)
+            if kw['cleavage_rule'] != 'trypsin' and kw['cleavage_exception'] not in (None, 'auto'):
+                kw['cleavage_exception'] = None
         kw['miscleavage'] = rng.choice([0, 1, 2, 2, 3])
         kw['min_length'] = rng.choice([5, 7, 7, 9])
         kw['max_length'] = rng.choice([15, 25, 25, 40])
@@ -77,64 +127,155 @@ def default_kw(rng: random.Random, vary: bool, opts_exc=None) -> dict:
     return kw
 
 
-def cv_worker(job):
-    """one generated single-gene input: real callVariant vs Spec.callVariant"""
-    seed, tier, opts = job
+def build_input(seed: int, opts: dict):
     rng = random.Random(seed)
-    out = {'cases': [], 'violations': [], 'stats': {}}
+    case = gen_ref.Case(gen_ref.work_dir('cv'))
+    with gen_ref.quiet():
+        gen_ref.make_reference(case, seed, 1)
+        genome, anno, _ = gen_ref.load_reference(case)
+        recs = []
+        for tx_id in anno.transcripts:
+            n = rng.randint(*opts.get('per_tx', (1, 6)))
+            recs += gen_ref.dense_variants(anno, genome, tx_id, rng, n,
+                                           max_size=opts.get('max_size', 4),
+                                           snv_frac=opts.get('snv_frac', 0.55),
+                                           window=opts.get('window', 40))
+        gen_ref.write_gvfs(case, recs)
+    return case, genome, anno, recs, rng
+
+
+def cv_worker(job):
+    """one generated single-gene input: real callVariant (+ requested variations) and the
+    protocol lines for Spec.callVariant / Spec.witness"""
+    seed, tier, opts = job
+    out = {'stats': {}, 'seed': seed}
     case = None
     try:
-        case = gen_ref.Case(gen_ref.work_dir('cv'))
-        with gen_ref.quiet():
-            gen_ref.make_reference(case, seed, 1)
-            genome, anno, _ = gen_ref.load_reference(case)
-            recs = []
-            for tx_id in anno.transcripts:
-                n = rng.randint(*opts.get('per_tx', (1, 6)))
-                recs += gen_ref.dense_variants(anno, genome, tx_id, rng, n,
-                                               max_size=opts.get('max_size', 4),
-                                               snv_frac=opts.get('snv_frac', 0.55),
-                                               window=opts.get('window', 40))
-            gen_ref.write_gvfs(case, recs)
+        case, genome, anno, recs, rng = build_input(seed, opts)
         if not case.gvfs:
             out['stats']['empty'] = 1
             return out
-        kw = default_kw(rng, opts.get('vary', True), opts.get('exception'))
+        kw = default_kw(rng, opts.get('vary', True), opts.get('exception'), opts.get('enzymes'))
+        kw.update(opts.get('kw', {}))
         canon = pipe.canonical_pool(case, **kw)
         run = gen_ref.run_call_variant(case, tag='cv', **kw)
         txs = tx_inputs(case, anno, genome)
         desc = {'seed': seed, 'kw': kw, 'n_records': len(recs)}
+        out['desc'] = desc
+        if len(txs) != 1:
+            out['stats']['not_single_tx'] = 1
+            return out
+        tx_id, tx = list(txs.items())[0]
+        desc.update(tx=tx_id, orf=tx['orf'], coding=tx['coding'], start_nf=tx['start_nf'],
+                    end_nf=tx['end_nf'], sec=tx['sec'], vars=tx['vars'], tx_seq=tx['seq'])
+        out['stats']['coding' if tx['coding'] else 'noncoding'] = 1
+        for k in ('start_nf', 'end_nf'):
+            if tx[k]:
+                out['stats'][k] = 1
+        if tx['sec']:
+            out['stats']['selenoprotein'] = 1
+        out['stats'][f'nvars_{min(len(tx["vars"]), 9)}'] = 1
+        out['stats'][f'enzyme_{kw["cleavage_rule"]}'] = 1
         if run.status != 'ok':
             out['stats']['crash'] = 1
-            out['stats']['crash_' + run.status] = 1
-            out['crashes'] = [(run.status, run.error, desc)]
+            out['crash'] = (run.status, run.error)
             return out
         idmap: Dict[str, int] = {}
-        lines = []
-        for tx_id, tx in txs.items():
-            ln = spec_line(tx, kw, canon, idmap)
-            if not ln:
-                out['stats']['unsupported_type'] = 1
-                return out
-            lines.append((tx_id, ln, tx))
+        exc = resolve_exc(kw)
+        la = spec_line(tx, kw, canon, idmap, exc)
+        if la is None:
+            out['stats']['unsupported_type'] = 1
+            return out
+        out['line_A'] = la
+        out['line_B'] = spec_line(tx, kw, canon, idmap, None) if exc else None
+        out['real'] = sorted(run.fasta.keys())
         out['stats']['runs'] = 1
-        tx0 = list(txs.values())[0] if txs else None
-        if tx0:
-            out['stats']['coding' if tx0['coding'] else 'noncoding'] = 1
-            if tx0['start_nf']:
-                out['stats']['cds_start_nf'] = 1
-            if tx0['end_nf']:
-                out['stats']['mrna_end_nf'] = 1
-            out['stats'][f'nvars_{min(len(tx0["vars"]), 8)}'] = 1
-        real = ','.join(sorted(run.fasta.keys()))
         out['stats']['real_peptides'] = len(run.fasta)
-        if len(lines) == 1:
-            out['cases'].append(('cv', lines[0][1], real,
-                                 dict(desc, tx=lines[0][0], orf=lines[0][2]['orf'],
-                                      coding=lines[0][2]['coding'],
-                                      start_nf=lines[0][2]['start_nf'], end_nf=lines[0][2]['end_nf'],
-                                      sec=lines[0][2]['sec'], vars=lines[0][2]['vars'],
-                                      headers={s: h for s, h in run.fasta.items()})))
+        # header entries for the witness check
+        out['set_line'] = set_line(tx, kw, idmap, exc)
+        wl = []
+        for seq_, hdrs in run.fasta.items():
+            for h in hdrs:
+                for entry in h.split(' '):
+                    ids, sect, w2f, problem = parse_entry(entry, tx_id, idmap)
+                    if problem:
+                        wl.append((None, seq_, entry, problem))
+                    else:
+                        wl.append(('\t'.join(['S', 'w', '1' if sect else '0', '1' if w2f else '0',
+                                              ','.join(str(i) for i in ids), seq_]), seq_, entry, None))
+        out['witness'] = wl
+        out['entries'] = [e for _s, hdrs in run.fasta.items() for h in hdrs for e in h.split(' ')]
+        out['headers'] = {s: h for s, h in run.fasta.items()}
+        # variations of the same input
+        var = []
+        for name in opts.get('variations', []):
+            if name == 'collapse':
+                kw2 = dict(kw, min_nodes_to_collapse=rng.choice([1, 2, 5]),
+                           naa_to_collapse=rng.choice([1, 2, 3, 5, 8]))
+                r2 = gen_ref.run_call_variant(case, tag='v', **kw2)
+                var.append({'name': 'collapse', 'relation': 'equal', 'status': r2.status,
+                            'what': {k: kw2[k] for k in ('min_nodes_to_collapse', 'naa_to_collapse')},
+                            'real': sorted(r2.fasta.keys())})
+            elif name == 'limits':
+                kw2 = dict(kw, max_variants_per_node=(rng.choice([1, 2, 3]),),
+                           additional_variants_per_misc=(rng.choice([0, 1]),))
+                r2 = gen_ref.run_call_variant(case, tag='v', **kw2)
+                var.append({'name': 'limits', 'relation': 'subset', 'status': r2.status,
+                            'what': {k: list(kw2[k]) for k in ('max_variants_per_node',
+                                                               'additional_variants_per_misc')},
+                            'real': sorted(r2.fasta.keys())})
+            elif name == 'timeout':
+                k = rng.choice([1, 2, 3])
+                kw2 = dict(kw, max_variants_per_node=rng.choice([(7, 2), (3,), (4, 3, 1)]),
+                           additional_variants_per_misc=rng.choice([(2,), (2, 0), (1,)]))
+                r2 = gen_ref.run_call_variant(case, tag='v', timeouts=f'wrapper:{tx_id}@{k}', **kw2)
+                params = [r['params'] for r in r2.trace if r['kind'] == 'wrapper']
+                var.append({'name': 'timeout', 'relation': 'subset', 'status': r2.status,
+                            'what': {'timeouts': k, 'mv': list(kw2['max_variants_per_node']),
+                                     'av': list(kw2['additional_variants_per_misc'])},
+                            'final_params': params, 'real': sorted(r2.fasta.keys())})
+            elif name in ('misc', 'minlen', 'maxlen', 'minmw', 'sect', 'w2f'):
+                kw2 = dict(kw)
+                if name == 'misc':
+                    kw2['miscleavage'] = kw['miscleavage'] + rng.choice([1, 2])
+                elif name == 'minlen':
+                    kw2['min_length'] = max(1, kw['min_length'] - rng.choice([1, 2, 3]))
+                elif name == 'maxlen':
+                    kw2['max_length'] = kw['max_length'] + rng.choice([1, 5, 10])
+                elif name == 'minmw':
+                    kw2['min_mw'] = max(0., kw['min_mw'] - rng.choice([100., 200.]))
+                elif name == 'sect':
+                    if kw['selenocysteine_termination']:
+                        continue
+                    kw2['selenocysteine_termination'] = True
+                elif name == 'w2f':
+                    if kw['w2f_reassignment']:
+                        continue
+                    kw2['w2f_reassignment'] = True
+                canon2 = pipe.canonical_pool(case, **kw2)
+                r2 = gen_ref.run_call_variant(case, tag='v', **kw2)
+                var.append({'name': name, 'relation': 'superset', 'status': r2.status,
+                            'what': {k: kw2[k] for k in kw2 if kw2[k] != kw.get(k)},
+                            'kw2': kw2, 'real': sorted(r2.fasta.keys()),
+                            'headers': {s: h for s, h in r2.fasta.items()},
+                            'line_A': spec_line(tx, kw2, canon2, dict(idmap), resolve_exc(kw2)),
+                            'canon_gained': sorted(canon2 - canon)})
+            elif name == 'addvar':
+                if len(recs) < 2:
+                    continue
+                keep = sorted(rng.sample(range(len(recs)), rng.randint(1, len(recs) - 1)))
+                with gen_ref.quiet():
+                    gv0 = list(case.gvfs)
+                    gen_ref.write_gvfs(case, [recs[i] for i in keep], names=['sub.gvf'])
+                    gsub = list(case.gvfs)
+                    case.gvfs = gv0
+                r2 = gen_ref.run_call_variant(case, tag='v', input_path=gsub, **kw)
+                kept_ids = [recs[i].id for i in keep]
+                var.append({'name': 'addvar', 'relation': 'subset', 'status': r2.status,
+                            'what': {'subset_of_records': kept_ids},
+                            'added_ids': [r.id for r in recs if r.id not in kept_ids],
+                            'real': sorted(r2.fasta.keys())})
+        out['variations'] = var
         return out
     except Exception:   # noqa
         out['stats']['worker_error'] = 1
